@@ -837,6 +837,24 @@ def prefix_statements(fname, nargs):
             (("call", None, ("la", f"{fname}_helper", ref)), None)]
 
 
+def rebind_bodies(env):
+    """unit bodies with nested ASSOCIATE constructs in which the inner one declares the associate name of the outer one
+    again, with another selector, and a procedure is referenced through the name inside the inner block (the innermost
+    declaration decides)"""
+    out = []
+    bound = [(o, t, b, key) for o, t in env.objs for key in ("sbinds", "fbinds") for b in env.types[t][key]]
+    for o, t, b, key in bound:
+        d = ("p0", "aa", ("la", b, lit("") if key == "sbinds" else lit("1")))
+        ref = ("call", None, d) if key == "sbinds" else ("form", None, True, ("FAssign", name("ios"), ("des", d)))
+        outers = [("bin", ("des", ("la", a, ("bin", lit("1"), ":", lit("2")))), " + ", lit("1")) for a in env.arrays[:1]]
+        outers += [name(o2) for o2, t2 in env.objs if t2 != t and b in env.types[t2][key]]
+        for sel in outers:
+            out.append([("assoc", True, [("aa", sel)]), ("assoc", True, [("aa", name(o))]), ref, ("endassoc",), ("endassoc",)])
+            out.append([("assoc", True, [("aa", sel), ("bb", name(o))]), ("assoc", False, [("cc", name("ios")), ("aa", name(o))]),
+                        ref, ("endassoc",), ref, ("endassoc",)][:5] + [("endassoc",)])
+    return out
+
+
 def gen_project(rng, knobs=None):
     """-> abstract project {modules: [...], program: {...} | None}"""
     knobs = dict(knobs or {})
@@ -854,9 +872,14 @@ def gen_project(rng, knobs=None):
         uses = [m["name"] for m in mods] if mi and rng.random() < 0.8 else []
         visible_types = [t for m in mods if m["name"] in uses for t in m["types"]]
         types = []
-        for ti in range(rng.choice([0, 1, 2])):
+        for ti in range(rng.choice([1, 2] if knobs.get("rebind_assoc") else [0, 1, 2])):
             tname = f"t{mi}{ti}"
             types.append(gen_type(rng, tname, [t["name"] for t in visible_types + types], fprocs, sprocs))
+            if knobs.get("rebind_assoc") and not (types[-1]["fbinds"] or types[-1]["sbinds"]):
+                b, pool, key = ("run", sprocs, "sbinds") if sprocs else ("get", fprocs, "fbinds")
+                if pool:
+                    types[-1][key].append(b)
+                    types[-1]["targets"][b] = rng.choice(pool)
         arrays = rng.sample(ARRAY_NAMES, rng.choice([1, 2, 3]))
         mods.append({"name": f"m{mi}", "uses": uses,
                      "types": types, "arrays": arrays, "procs": procs,
@@ -925,7 +948,7 @@ def fill_unit(rng, proj, mod, unit, host):
             larrays.append(rng.choice(cand))      # a local array with the spelling of a visible procedure
     lscalars = rng.sample(SCALAR_NAMES, rng.choice([3, 4, 5])) + ["ios"]
     lobjs = []
-    for on in rng.sample(OBJ_NAMES, rng.choice([0, 1, 2])):
+    for on in rng.sample(OBJ_NAMES, rng.choice([1, 2, 2] if knobs.get("rebind_assoc") else [0, 1, 2])):
         if env.types:
             lobjs.append((on, rng.choice(sorted(env.types))))
     unit["locals"] = {"arrays": sorted(set(larrays)), "scalars": sorted(set(lscalars) - set(larrays)), "objs": lobjs}
@@ -979,6 +1002,11 @@ def fill_unit(rng, proj, mod, unit, host):
         if var:
             unit["locals"]["scalars"] = sorted(set(unit["locals"]["scalars"]) | {var})
         unit["prefix_stmt"] = f
+    if knobs.get("rebind_assoc") and rng.random() < knobs["rebind_assoc"]:
+        bodies = rebind_bodies(env)
+        if bodies:
+            body = rng.choice(bodies)
+            unit["rebind_assoc"] = True
     p_case = knobs.get("p_case", rng.choice([0.0, 0.15, 0.3, 0.6]))
     unit["body"] = [recase_stmt(rng, s_, p_case) for s_ in body] if p_case else body
     unit["env_types"] = sorted(env.types)
